@@ -223,12 +223,20 @@ def generate(prop, run_seed, tier):
     if warm and rng.random() < 0.6:
         # same-call contention: every thread runs the SAME call a few times in warm code. Any per-call scratch state that
         # lives at class or module level instead of on the instance is then written by several threads at once.
-        if rng.random() < 0.75:
+        r_ = rng.random()
+        if r_ < 0.5:
             c = POOL[rng.randrange(len(POOL))]
         else:
             from sim.corpus import corpus
 
-            d, q = rng.choice(corpus.STATEFUL + [(None, x) for x in corpus.SOFT_KEYWORDS])
+            if r_ < 0.7:
+                d, q = rng.choice(corpus.STATEFUL + [(None, x) for x in corpus.SOFT_KEYWORDS])
+            else:
+                # any statement of the test corpus, rare statement kinds as likely as SELECTs: steady-state contention
+                # reaches whatever class-level scratch state a rarely used parser/generator path may keep
+                strata = corpus.extracted_strata()
+                st_ = strata[rng.randrange(len(strata))] if strata else corpus.GENERAL
+                d, q = st_[rng.randrange(len(st_))]
             c = T(q, d, rng.choice([d, d, "duckdb", "snowflake", "postgres"]))
         k = rng.choice([1, 2, 3])
         scripts = [[copy.deepcopy(c) for _ in range(k)] for _ in range(n)]
